@@ -124,6 +124,50 @@ func chainPurity(w *mon.W, class string, relevant func(rule string) bool) {
 			s2.Audience = nil
 			add(group, "ExecutionAllowed", &s2, inv2, ld, "a second invocation token over the same proofs")
 		}
+		// what a server does per request: the container and the invocation are decoded afresh from
+		// their bytes inside the call; the outcome is the verdict together with the principals the
+		// decoded chain names
+		loadErr := false
+		for _, l := range s.Links {
+			loadErr = loadErr || l.LoadErr // (a failing store is a property of the loader object, not of the bytes)
+		}
+		if s.Wire > 0 && len(b.Container) > 0 && len(b.InvSeal) > 0 && !loadErr {
+			data, format, invSeal, cids := b.Container, b.WireFmt, append([]byte{}, b.InvSeal...), b.Cids
+			want, why := s.Conforming()
+			rule := "conforming"
+			if !want {
+				rule = ruleOf(why)
+			}
+			thunks = append(thunks, mon.Thunk{Label: "ExecutionAllowed/decoded-per-call", Group: group, Desc: "container and invocation decoded inside the call; " + mon.Trunc(fmt.Sprint(s.Describe()), 1400), F: func() string {
+				rd, err := chain.ReadContainer(data, format)
+				if err != nil {
+					return "container: " + classifyErr(err)
+				}
+				inv, _, err := invocation.FromSealed(invSeal)
+				if err != nil {
+					return "invocation: " + classifyErr(err)
+				}
+				out := classifyErr(inv.ExecutionAllowed(rd)) + " | inv " + inv.Issuer().String() + ">" + inv.Subject().String()
+				for _, c := range cids {
+					if d, err := rd.GetDelegation(c); err == nil {
+						out += " | " + d.Issuer().String() + ">" + d.Audience().String() + "/" + d.Subject().String()
+					} else {
+						out += " | -"
+					}
+				}
+				return out
+			}, Check: func(out string) string {
+				verdict, _, _ := strings.Cut(out, " | ")
+				if (verdict == "nil") == want || !relevant(rule) {
+					return ""
+				}
+				if want {
+					return "the chain satisfies every delegation rule (reference model): it must be allowed"
+				}
+				return "the reference model denies it: " + why
+			}})
+			w.Cover("chain-purity/decoded-per-call")
+		}
 		// the same proofs presented for another question: another invoker, another subject, another
 		// command, other arguments. Whatever was concluded for the first invocation says nothing
 		// about these
